@@ -47,30 +47,55 @@ theorem sorted_ext_nat {a b : List Nat} (ha : a.Pairwise (· < ·)) (hb : b.Pair
 
 /-! ### nothing merged, nothing changed -/
 
-/-- if in every class the pushed list is as long as the class, `Repair` returns its argument -/
-theorem repair_unchanged (t : Table)
-    (h : ∀ idx ∈ Table.groups t, (classP t idx).length = idx.length) : repair t = .ok t := by
-  have hne : ∀ idx ∈ Table.groups t, classP t idx ≠ [] := by
-    intro idx hi e
+/-- if no class is reduced by the push loop (`len(locs) ≥ len(indices)` everywhere), `Repair`
+returns its argument -/
+theorem repair_unchanged' (t : Table)
+    (h : ∀ idx ∈ Table.groups t, idx.length ≤ classN t idx) : repair t = .ok t := by
+  have hnil : (Table.groups t).any (classNil t) = false := by
+    rw [List.any_eq_false]
+    intro idx hi
     have := h idx hi
-    rw [e] at this
-    exact Table.groups_ne_nil t idx hi (List.length_eq_zero_iff.mp this.symm)
-  have hns : Table.noStale t = true := (noStale_iff t).mpr fun idx hi => ⟨hne idx hi, by rw [h idx hi]; exact Nat.le_refl _⟩
-  rw [repair_eq_spec t hns]
+    simp only [classNil, Bool.and_eq_true, decide_eq_true_eq, not_and]
+    intro h'; omega
+  rw [repair_eq_spec t hnil]
   have hw : (Table.groups t).flatMap (classWrites t) = [] := by
     rw [List.flatMap_eq_nil_iff]
     intro idx hi
-    simp [classWrites, classN_of_ne_nil (hne idx hi), h idx hi]
+    have := h idx hi
+    have : ¬ classN t idx < idx.length := by omega
+    simp [classWrites, this]
   have hk : (Table.groups t).flatMap (classKept t) = (Table.groups t).flatten := by
     rw [← List.flatMap_id]
     apply flatMap_congr'
     intro idx hi
-    simp [classKept, classN_of_ne_nil (hne idx hi), h idx hi]
+    have := h idx hi
+    have : ¬ classN t idx < idx.length := by omega
+    simp [classKept, this]
   have hkeep : specKeep t = List.range t.length := by
     simp only [specKeep, hk]
     exact sortNat_eq_self_of_sorted (Table.groups_flatten_perm t) (List.pairwise_lt_range.imp Nat.le_of_lt)
   simp only [specRepair, specGG, hw, writeLocs, hkeep]
   rw [range_filterMap_getElem? t t.length (Nat.le_refl _), List.take_length]
+
+/-- if in every class the pushed list is as long as the class, `Repair` returns its argument -/
+theorem repair_unchanged (t : Table)
+    (h : ∀ idx ∈ Table.groups t, (classP t idx).length = idx.length) : repair t = .ok t := by
+  apply repair_unchanged'
+  intro idx hi
+  have hne : classP t idx ≠ [] := by
+    intro e
+    have := h idx hi
+    rw [e] at this
+    exact Table.groups_ne_nil t idx hi (List.length_eq_zero_iff.mp this.symm)
+  rw [classN_of_ne_nil hne, h idx hi]
+  exact Nat.le_refl _
+
+theorem ne_nil_of_noNil (t : Table) (hnil : (Table.groups t).any (classNil t) = false)
+    (idx : List Nat) (hi : idx ∈ Table.groups t) (hc : classN t idx < idx.length) : classP t idx ≠ [] := by
+  rw [List.any_eq_false] at hnil
+  have := hnil idx hi
+  simp only [classNil, Bool.and_eq_true, decide_eq_true_eq, not_and, List.isEmpty_iff] at this
+  exact this hc
 
 /-! ### the classes of the result -/
 
@@ -105,34 +130,9 @@ theorem group_unique (t : Table) (idx idx' : List Nat) (h : idx ∈ Table.groups
   cases hf'
   rfl
 
-theorem mem_specKeep (t : Table) (hns : Table.noStale t = true) (j : Nat) :
+theorem mem_specKeep (t : Table) (j : Nat) :
     j ∈ specKeep t ↔ ∃ idx ∈ Table.groups t, j ∈ idx.take (classN t idx) := by
-  rw [noStale_iff] at hns
-  simp only [specKeep, (sortNat_perm _).mem_iff, List.mem_flatMap]
-  constructor
-  · rintro ⟨idx, hi, hj⟩
-    refine ⟨idx, hi, ?_⟩
-    have : classN t idx ≤ idx.length := by
-      rw [classN_of_ne_nil (hns idx hi).1]; exact (hns idx hi).2
-    simpa [classKept, this] using hj
-  · rintro ⟨idx, hi, hj⟩
-    refine ⟨idx, hi, ?_⟩
-    have : classN t idx ≤ idx.length := by
-      rw [classN_of_ne_nil (hns idx hi).1]; exact (hns idx hi).2
-    simpa [classKept, this] using hj
-
-theorem specKeep_sorted (t : Table) (hns : Table.noStale t = true) : (specKeep t).Pairwise (· < ·) := by
-  have hns' := (noStale_iff t).mp hns
-  have hsub : ((Table.groups t).flatMap (classKept t)).Sublist (Table.groups t).flatten := by
-    have e : (Table.groups t).flatten = (Table.groups t).flatMap id := List.flatMap_id.symm
-    rw [e]
-    exact sublist_flatMap _ _ _ fun idx hi => classKept_sublist t idx (by
-      rw [classN_of_ne_nil (hns' idx hi).1]; exact (hns' idx hi).2)
-  have hnd : (specKeep t).Nodup :=
-    ((sortNat_perm _).nodup_iff).mpr (List.Nodup.sublist hsub (Table.groups_flatten_nodup t))
-  have h1 := sortNat_sorted ((Table.groups t).flatMap (classKept t))
-  have h2 : (specKeep t).Pairwise (· ≠ ·) := hnd
-  exact (h1.and h2).imp fun ⟨a, b⟩ => Nat.lt_of_le_of_ne a b
+  simp only [specKeep, (sortNat_perm _).mem_iff, List.mem_flatMap, classKept_eq_take]
 
 /-- the entry of the written table at a member of a class without writes -/
 theorem specGG_of_no_writes (t : Table) (idx : List Nat) (hi : idx ∈ Table.groups t)
@@ -165,20 +165,15 @@ theorem specGG_classKey (t : Table) (j : Nat) :
     | some f =>
       rw [h2] at this
       simp only [Option.map_some, Option.some.injEq, Prod.mk.injEq] at this
-      simp [classKey, this.1, this.2]
+      simp [classKey_congr this.1 this.2]
 
 /-- **the result, class by class**: the features with grouping text `k` carry, in table order,
 the pushed list of the class if that is shorter than the class, and their old locations
 otherwise -/
-theorem locsOf_specRepair (t : Table) (hns : Table.noStale t = true) (k : String)
+theorem locsOf_specRepair (t : Table) (hnil : (Table.groups t).any (classNil t) = false) (k : String)
     (hk : k ∈ Table.classKeys t) :
     Table.locsOf (specRepair t) k = classNew t (Table.memberIdx t k) := by
   have hidx : Table.memberIdx t k ∈ Table.groups t := List.mem_map.mpr ⟨k, hk, rfl⟩
-  have hns' := (noStale_iff t).mp hns
-  have hN : classN t (Table.memberIdx t k) = (classP t (Table.memberIdx t k)).length :=
-    classN_of_ne_nil (hns' _ hidx).1
-  have hle : classN t (Table.memberIdx t k) ≤ (Table.memberIdx t k).length := by
-    rw [hN]; exact (hns' _ hidx).2
   have hlt := groups_lt t _ hidx
   -- step 1: select the class among the kept indices
   have h1 : Table.locsOf (specRepair t) k =
@@ -188,7 +183,7 @@ theorem locsOf_specRepair (t : Table) (hns : Table.noStale t = true) (k : String
     rw [← List.filterMap_eq_filter, List.filterMap_filterMap, List.map_filterMap, List.filterMap_filter]
     apply filterMap_congr'
     intro j hj
-    obtain ⟨idx', hi', hj'⟩ := (mem_specKeep t hns j).mp hj
+    obtain ⟨idx', hi', hj'⟩ := (mem_specKeep t j).mp hj
     have hjlt : j < t.length := groups_lt t idx' hi' j (List.mem_of_mem_take hj')
     have hkey := specGG_classKey t j
     rw [List.getElem?_eq_getElem hjlt] at hkey
@@ -212,10 +207,10 @@ theorem locsOf_specRepair (t : Table) (hns : Table.noStale t = true) (k : String
   -- step 2: those are the first `classN` members
   have h2 : ((specKeep t).filter fun j => decide (j ∈ Table.memberIdx t k)) =
       (Table.memberIdx t k).take (classN t (Table.memberIdx t k)) := by
-    apply sorted_ext_nat ((specKeep_sorted t hns).filter _)
+    apply sorted_ext_nat ((specKeep_sorted t).filter _)
       ((Table.memberIdx_sorted t k).sublist (List.take_sublist _ _))
     intro j
-    simp only [List.mem_filter, decide_eq_true_eq, mem_specKeep t hns]
+    simp only [List.mem_filter, decide_eq_true_eq, mem_specKeep t]
     constructor
     · rintro ⟨⟨idx', hi', hj'⟩, hj⟩
       have := group_unique t idx' _ hi' hidx j (List.mem_of_mem_take hj') hj
@@ -230,8 +225,10 @@ theorem locsOf_specRepair (t : Table) (hns : Table.noStale t = true) (k : String
   · simp only [hc, if_true]
     have hw : classWrites t (Table.memberIdx t k) = (Table.memberIdx t k).zip (classP t (Table.memberIdx t k)) := by
       simp [classWrites, hc]
+    have hne := ne_nil_of_noNil t hnil _ hidx hc
+    have hN := classN_of_ne_nil hne
     rw [hN]
-    apply zip_take_filterMap _ _ _ (hns' _ hidx).2
+    apply zip_take_filterMap _ _ _ (by rw [hN] at hc; omega)
     intro w hwm
     have hwm' : (w.1, w.2) ∈ classWrites t (Table.memberIdx t k) := by rw [hw]; exact hwm
     rw [specGG_of_write t _ hidx w.1 w.2 hwm']
@@ -239,8 +236,7 @@ theorem locsOf_specRepair (t : Table) (hns : Table.noStale t = true) (k : String
     simp [List.getElem?_eq_getElem this]
   · simp only [hc, if_false]
     have hw : classWrites t (Table.memberIdx t k) = [] := by simp [classWrites, hc]
-    have : classN t (Table.memberIdx t k) = (Table.memberIdx t k).length := by omega
-    rw [this, List.take_length]
+    rw [List.take_of_length_le (by omega)]
     simp only [classLocs]
     apply filterMap_congr'
     intro j hj
